@@ -20,12 +20,14 @@ package main
 // One line per case:  k kind OK | k kind SKIP | k kind BAD V|W detail.
 
 import (
+	"bytes"
 	"fmt"
 	"math"
 	"strings"
 	"time"
 
 	"github.com/mattn/go-runewidth"
+	"github.com/vbauerster/mpb/v8"
 	"github.com/vbauerster/mpb/v8/decor"
 )
 
@@ -48,7 +50,7 @@ func runDecFamily(c *runCtx) error {
 	}
 	for k := 0; k < c.n; k++ {
 		r := root.fork()
-		kind := r.intn(10)
+		kind := r.intn(11)
 		report := func(name string, bad []string, skip bool) {
 			switch {
 			case len(bad) > 0:
@@ -270,6 +272,60 @@ func runDecFamily(c *runCtx) error {
 			}
 			width(&bad, "AverageETA", s, w)
 			report("avgeta", bad, skip)
+		case kind == 9: // the *Meta functions of the bar style decorate exactly their own component and change nothing else
+			comp := map[string]string{"L": "[", "R": "]", "F": "=", "E": "+", "P": "-", "T": ">"}
+			wrap := func(tag string) func(string) string {
+				return func(x string) string { return "<" + tag + ":" + x + "/" + tag + ">" }
+			}
+			rev := r.bool()
+			mk := func(meta bool) mpb.BarFiller {
+				st := mpb.BarStyle().Lbound("[").Rbound("]").Filler("=").Refiller("+").Padding("-").Tip(">")
+				if meta {
+					st = st.LboundMeta(wrap("L")).RboundMeta(wrap("R")).FillerMeta(wrap("F")).RefillerMeta(wrap("E")).PaddingMeta(wrap("P")).TipMeta(wrap("T"))
+				}
+				if rev {
+					st = st.Reverse()
+				}
+				return st.Build()
+			}
+			total := int64(10 + r.intn(200))
+			cur := int64(r.intn(int(total) + 1))
+			ref := int64(0)
+			if r.bool() && cur > 0 {
+				ref = int64(r.intn(int(cur) + 1))
+			}
+			width := 3 + r.intn(60)
+			st := decor.Statistics{AvailableWidth: width, Total: total, Current: cur, Refill: ref}
+			cases.WriteString(fmt.Sprintf("B %d %d %d %d %d %v\n", k, width, total, cur, ref, rev))
+			var plain, deco bytes.Buffer
+			_ = mk(false).Fill(&plain, st)
+			_ = mk(true).Fill(&deco, st)
+			var bad []string
+			// parse <X:...../X> groups
+			rest, stripped := deco.String(), ""
+			for rest != "" {
+				if len(rest) < 4 || rest[0] != '<' || rest[2] != ':' {
+					bad = append(bad, fmt.Sprintf("W a bar style with meta functions on every component printed %q: text outside the decorated components", deco.String()))
+					break
+				}
+				tag := rest[1:2]
+				end := strings.Index(rest, "/"+tag+">")
+				if end < 0 {
+					bad = append(bad, fmt.Sprintf("W a bar style with meta functions printed %q: unterminated component %s", deco.String(), tag))
+					break
+				}
+				body := rest[3:end]
+				if strings.Trim(body, comp[tag]) != "" {
+					bad = append(bad, fmt.Sprintf("W the meta function of component %s was applied to %q (the component is %q)", tag, body, comp[tag]))
+					break
+				}
+				stripped += body
+				rest = rest[end+3:]
+			}
+			if len(bad) == 0 && stripped != plain.String() {
+				bad = append(bad, fmt.Sprintf("W the bar with meta functions, decorations removed, is %q; without meta functions it is %q", stripped, plain.String()))
+			}
+			report("meta", bad, false)
 		default: // spinner, name, conditionals, on-complete-or-on-abort
 			var bad []string
 			frames := [][]string{nil, {"a", "bb", "ccc"}, {"世", "界"}, {"x"}}[r.intn(4)]
